@@ -505,6 +505,12 @@ def exhaustive_chunk(args):
         mode, varnames = VARSETS[i % len(VARSETS)] if depth != "eq" else VARSETS[(i // 7) % len(VARSETS)]
         form = ("str", "list", "dict")[i % 3] if r is None else ("str", "list")[i % 2]
         _g.guard(acc.fail, check_spec, acc, rng, mode, form, [(l, r, [0, 3, 2.5, -1][i % 4])], varnames, "exhaustive")
+        if i % 4 == 1:
+            # the same constraint written more than once (comma string / list): one row per constraint AS WRITTEN
+            c = (l, r, 0)
+            other = (LEAVES[i % 3], None, 0)
+            rep = [[c, c], [c, other, c], [other, c, c]][(i // 4) % 3]
+            _g.guard(acc.fail, check_spec, acc, rng, mode, ("list", "str")[(i // 4) % 2], rep, varnames, "exhaustive")
     return acc.n, acc.keys, acc.samples, acc.fails
 
 
@@ -528,6 +534,8 @@ def random_chunk(args):
             else:
                 l, r = random_tree(rng, total, names, linear_bias), None
             cons.append((l, r, rng.choice([0, 1, -2, 2.5, 0.125, 10])))
+        if form != "dict" and rng.random() < 0.2:
+            cons.insert(rng.randrange(len(cons) + 1), rng.choice(cons))  # a repeated constraint
         _g.guard(acc.fail, check_spec, acc, rng, mode, form, cons, varnames, "random")
     return acc.n, acc.keys, acc.samples, acc.fails
 
@@ -550,7 +558,7 @@ def run_bounded(ctx):
         "constraint-trees-exhaustive",
         rule="every binary-operator tree with <= k operators over leaves {a,b,c,2,0.5} (k<=2 quick, <=3 thorough) and every "
              "'lhs = rhs' with <=1 operator per side, rendered with minimal parentheses, cycling string/list/dict forms and four "
-             "variable-name lists (two through ModelSpec.get_linear_constraints); non-trivial = uses a name and an operator; "
+             "variable-name lists (two through ModelSpec.get_linear_constraints); every fourth tree is also written 2-3 times in one list / comma string; non-trivial = uses a name and an operator; "
              "semantically ambiguous specs (written non-linear but affine after cancellation, division by zero) are skipped uncounted",
         exhaustive=True,
         bound="operators <= 2 (quick) / 3 (thorough); 5 leaves; lhs=rhs with <=1+1 operators",
@@ -563,7 +571,7 @@ def run_bounded(ctx):
             _collect(b, _g.safe_map(exhaustive_chunk, tasks), total)
     with ctx.bounded(
         "constraint-specs-random",
-        rule="seeded random specs: 1-3 constraints, each with <= 6 operators (incl. unary minus at the start of a parenthesised "
+        rule="seeded random specs: 1-3 constraints (20% with one of them repeated), each with <= 6 operators (incl. unary minus at the start of a parenthesised "
              "sub-expression), optional '=', redundant parentheses/whitespace, 10 literals, string/list/dict forms; distinct by "
              "(entry point, form, spec text, variable names)",
         exhaustive=False,
